@@ -161,6 +161,32 @@ def run(tier, seed):
                     break
             if len(res.violations) >= 5:
                 break
+        # histories in which the FILE SYSTEM changes between loads (an included file is edited, broken, restored, while the main file
+        # keeps its content, size and modification time): each load must see the files as they are at that moment
+        fc = os.path.join(scratch, "fc")
+        os.makedirs(fc, exist_ok=True)
+        mainp, gatep = os.path.join(fc, "main.xbb"), os.path.join(fc, "gate.xbb")
+        versions = {"v1": "name gate\nversion 1.0\nSgate(0.1) | 0\n", "v2": "name gate\nversion 1.0\nSgate(0.7) | 0\nVac | 1\n",
+                    "bad": "name gate\nversion 1.0\nSgate(0.7 | 0\n", "tpl": "name gate\nversion 1.0\nSgate({a}) | 0\n"}
+        maintext = 'name main\nversion 1.0\ninclude "gate.xbb"\ngate | 3\n'
+        wmain = {"write": mainp, "content": maintext, "mtime": 1600000000}
+        for order in (["v1", "v2", "bad", "v1"], ["bad", "v1", "tpl", "v2"], ["v2", "v2", "v1", "bad"]):
+            steps = [wmain]
+            for v in order:
+                steps += [{"write": gatep, "content": versions[v]}, {"path": mainp}, {"text": 'name t\nversion 1.0\ninclude "%s"\ngate | 5\n' % gatep}]
+            got = subproc.run_batch([{"kind": "history", "steps": steps}], 0, None)[0]["steps"]
+            for k, st in enumerate(steps):
+                if "write" in st:
+                    continue
+                alone = [s2 for s2 in steps[:k] if "write" in s2] + [st]
+                want = subproc.run_batch([{"kind": "history", "steps": alone}], 0, None)[0]["steps"][-1]
+                res.case("file-change:%s:%d" % ("-".join(order), k), True, None)
+                res.count("file-change-history")
+                if strip(got[k]) != strip(want):
+                    ok = False
+                    res.violate("after the included file was changed (versions %s), load %d gives %s; a pristine process that sees the same files gives %s"
+                                % (order, k, summary(got[k]), summary(want)), {"check": "file-change", "steps": steps, "step": k})
+                    break
         res.oblige("correspondence: every load in a history has its pristine-process outcome; results share no mutable state", "correspondence", ok)
         # the model agrees with the pristine outcomes on the text-only entries (ties Tables/denote to the code)
         if status.bbmodel_ok:
@@ -196,6 +222,16 @@ def summary(o):
 def replay(rep):
     inp = rep["input"]
     steps = inp["steps"]
+    if inp.get("check") == "file-change":
+        k = inp["step"]
+        for st in steps:
+            if "write" in st:
+                os.makedirs(os.path.dirname(st["write"]), exist_ok=True)
+        got = subproc.run_batch([{"kind": "history", "steps": steps[:k + 1]}], 0)[0]["steps"][k]
+        alone = [s2 for s2 in steps[:k] if "write" in s2] + [steps[k]]
+        want = subproc.run_batch([{"kind": "history", "steps": alone}], 0)[0]["steps"][-1]
+        print("same as pristine:", strip(got) == strip(want))
+        return 0 if strip(got) == strip(want) else 1
     a = subproc.run_batch([{"kind": "history", "steps": steps}], 0)[0]
     b = subproc.run_batch([{"kind": "pristine", "steps": steps}], 0)[0]
     bad = [i for i, (x, y) in enumerate(zip(a["steps"], b)) if strip(x) != strip(y)]
